@@ -244,7 +244,7 @@ func (fc *FnCtx) appendBuiltin(cc *ssa.CallCommon, args []V, resTy types.Type, p
 		t.T[0] = "str:" + args[1].T[0]
 	}
 	n := t.T[2]
-	newLen := fc.def("applen", sBV(64), sx("bvadd", s.T[2], n))
+	newLen := fc.def("applen", sBV(64), add64(s.T[2], n))
 	fits := fc.def("appfits", sBool, sx("bvsle", newLen, s.T[3]))
 	nb := fc.allocRef("appbase")
 	ncap := fc.fresh("appcap", sBV(64))
@@ -263,7 +263,7 @@ func (fc *FnCtx) appendBuiltin(cc *ssa.CallCommon, args []V, resTy types.Type, p
 			na := old
 			tmem := sx("select", mem, t.T[0])
 			for j := int64(0); j < k; j++ {
-				na = sx("store", na, sx("bvadd", s.T[1], sx("bvadd", s.T[2], bvLit(uint64(j), 64))), sx("select", tmem, sx("bvadd", t.T[1], bvLit(uint64(j), 64))))
+				na = sx("store", na, add64(s.T[1], add64(s.T[2], bvLit(uint64(j), 64))), sx("select", tmem, add64(t.T[1], bvLit(uint64(j), 64))))
 			}
 			fc.heapSet(fc.cur, key, memSort(c.Sort), sx("store", mem, base, na))
 			fc.noteWrite(key)
@@ -278,8 +278,8 @@ func (fc *FnCtx) appendBuiltin(cc *ssa.CallCommon, args []V, resTy types.Type, p
 			tmem := sx("select", mem, t.T[0])
 			src = fmt.Sprintf("(select %s (bvadd %s (bvsub %s (bvadd %s %s))))", tmem, t.T[1], i, s.T[1], s.T[2])
 		}
-		lo := sx("bvadd", s.T[1], s.T[2])
-		hi := sx("bvadd", s.T[1], newLen)
+		lo := add64(s.T[1], s.T[2])
+		hi := add64(s.T[1], newLen)
 		fc.assume(fmt.Sprintf("(forall ((%s (_ BitVec 64))) (! (= (select %s %s) (ite (and (bvule %s %s) (bvult %s %s)) %s (select %s %s))) :pattern ((select %s %s))))",
 			i, na, i, lo, i, i, hi, src, old, i, na, i))
 		fc.heapSet(fc.cur, key, memSort(c.Sort), sx("store", mem, base, na))
@@ -305,6 +305,24 @@ func (fc *FnCtx) copyBuiltin(args []V, resTy types.Type, pos token.Pos) V {
 	n := fc.def("copyn", sBV(64), ite(sx("bvslt", d.T[2], sl), d.T[2], sl))
 	et := elemOf(d.Ty)
 	mk := fc.e.memKey(et)
+	if dk, ok := lit64(d.T[2]); ok && dk <= 16 && !isString(s.Ty) {
+		// destination of a small constant length: explicit stores, no quantifier
+		for _, c := range fc.e.comps(et) {
+			key := mk + "." + c.Suf
+			mem := fc.heapGet(fc.cur, key, memSort(c.Sort))
+			old := sx("select", mem, d.T[0])
+			srcInner := sx("select", mem, s.T[0])
+			na := old
+			for j := uint64(0); j < dk; j++ {
+				at := add64(d.T[1], bvLit(j, 64))
+				na = sx("store", na, at, ite(sx("bvult", bvLit(j, 64), n), sx("select", srcInner, add64(s.T[1], bvLit(j, 64))), sx("select", old, at)))
+			}
+			fc.frameCheckMemN(d, n, pos)
+			fc.heapSet(fc.cur, key, memSort(c.Sort), ite(eq(n, bvLit(0, 64)), mem, sx("store", mem, d.T[0], na)))
+			fc.noteWrite(key)
+		}
+		return V{Ty: resTy, T: []string{n}}
+	}
 	for _, c := range fc.e.comps(et) {
 		key := mk + "." + c.Suf
 		mem := fc.heapGet(fc.cur, key, memSort(c.Sort))
@@ -317,10 +335,10 @@ func (fc *FnCtx) copyBuiltin(args []V, resTy types.Type, pos token.Pos) V {
 		} else {
 			src = fmt.Sprintf("(select (select %s %s) (bvadd %s (bvsub %s %s)))", mem, s.T[0], s.T[1], i, d.T[1])
 		}
-		hi := sx("bvadd", d.T[1], n)
+		hi := add64(d.T[1], n)
 		fc.assume(fmt.Sprintf("(forall ((%s (_ BitVec 64))) (! (= (select %s %s) (ite (and (bvule %s %s) (bvult %s %s)) %s (select %s %s))) :pattern ((select %s %s))))",
 			i, na, i, d.T[1], i, i, hi, src, old, i, na, i))
-		fc.frameCheckMem(d, pos)
+		fc.frameCheckMemN(d, n, pos)
 		// copying nothing leaves memory untouched (also covers a nil destination)
 		fc.heapSet(fc.cur, key, memSort(c.Sort), ite(eq(n, bvLit(0, 64)), mem, sx("store", mem, d.T[0], na)))
 		fc.noteWrite(key)
@@ -338,7 +356,7 @@ func (fc *FnCtx) readBE(b V, n int, pos token.Pos) string {
 	inner := sx("select", mem, b.T[0])
 	var parts []string
 	for i := 0; i < n; i++ {
-		parts = append(parts, sx("select", inner, sx("bvadd", b.T[1], bvLit(uint64(i), 64))))
+		parts = append(parts, sx("select", inner, add64(b.T[1], bvLit(uint64(i), 64))))
 	}
 	return sx("concat", parts...)
 }
@@ -351,7 +369,7 @@ func (fc *FnCtx) writeBE(b V, val string, n int, pos token.Pos) {
 	inner := sx("select", mem, b.T[0])
 	for i := 0; i < n; i++ {
 		hi := (n-i)*8 - 1
-		inner = sx("store", inner, sx("bvadd", b.T[1], bvLit(uint64(i), 64)), sx(fmt.Sprintf("(_ extract %d %d)", hi, hi-7), val))
+		inner = sx("store", inner, add64(b.T[1], bvLit(uint64(i), 64)), sx(fmt.Sprintf("(_ extract %d %d)", hi, hi-7), val))
 	}
 	fc.heapSet(fc.cur, "M:bv8.", memSort(sBV(8)), sx("store", mem, b.T[0], inner))
 	fc.noteWrite("M:bv8.")
@@ -424,20 +442,17 @@ func (e *Engine) tagOfName(n string) int {
 
 func (fc *FnCtx) byteAt(st *State, s V, k int) string {
 	mem := fc.heapGet(st, "M:bv8.", memSort(sBV(8)))
-	return sx("select", sx("select", mem, s.T[0]), sx("bvadd", s.T[1], bvLit(uint64(k), 64)))
+	return sx("select", sx("select", mem, s.T[0]), add64(s.T[1], bvLit(uint64(k), 64)))
 }
 
 // net.IP.To4: len 4 -> ip; len 16 with the v4-in-v6 prefix -> ip[12:16]; else nil.
 func (fc *FnCtx) modelTo4(ip V, resTy types.Type) V {
 	l := ip.T[2]
 	is4 := eq(l, bvLit(4, 64))
-	var pre []string
-	for k := 0; k < 10; k++ {
-		pre = append(pre, eq(fc.byteAt(fc.cur, ip, k), "#x00"))
-	}
-	pre = append(pre, eq(fc.byteAt(fc.cur, ip, 10), "#xff"), eq(fc.byteAt(fc.cur, ip, 11), "#xff"))
-	mapped := fc.def("v4mapped", sBool, and(append([]string{eq(l, bvLit(16, 64))}, pre...)...))
-	sub := V{Ty: resTy, T: []string{ip.T[0], sx("bvadd", ip.T[1], bvLit(12, 64)), bvLit(4, 64), sx("bvsub", ip.T[3], bvLit(12, 64))}}
+	env := fc.newEnv(fc.cur, fc.cur)
+	env.vars["ip!"] = ip
+	mapped := fc.def("v4mapped", sBool, env.evalBool(&ECall{Fun: &EIdent{"v4mapped"}, Args: []Expr{&EIdent{"ip!"}}}))
+	sub := V{Ty: resTy, T: []string{ip.T[0], add64(ip.T[1], bvLit(12, 64)), bvLit(4, 64), sub64(ip.T[3], bvLit(12, 64))}}
 	z := fc.zero(resTy)
 	r := fc.iteV(is4, V{Ty: resTy, T: ip.T}, fc.iteV(mapped, sub, z))
 	return fc.defV("to4", r)
